@@ -45,16 +45,23 @@ def check(out, ctx):
     total_evals = 0
     failing_cached = 0
     probed = 0
+    certified_cases = 0
     for c in cases:
         rules = memo_rules(c.g.text)
         cnt = body_evals(c.impl["trace"], rules)
         total_evals += sum(cnt.values())
         key = "%s:%s:%s" % (c.g.gid, c.rule, c.inp.encode().hex())
+        certified = getattr(c.g, "wf_once", None) is True
+        certified_cases += certified
         for (name, off), k in cnt.items():
             if k > 1:
                 kk = "c06:reentrant-through-leftrec" if c.g.meta.get("corpus") == "memo_reentrant_through_leftrec" else "c06:" + key
-                out.violation(kk, "body of memoized rule %s evaluated %d times at offset %d on %r" % (name, k, off, c.inp),
-                              common.case_payload(c, st, rule_evaluated=name, offset=off, times=k))
+                out.violation(kk, "body of memoized rule %s evaluated %d times at offset %d on %r%s" % (name, k, off, c.inp,
+                              " (the grammar passes OnceWF.well_formed_once: an instance of theorem C06_at_most_once_lr)" if certified else ""),
+                              common.case_payload(c, st, rule_evaluated=name, offset=off, times=k, certified_by_well_formed_once=certified))
+        if certified and sum(cnt.values()) > len(rules) * (len(c.inp.encode()) + 1):
+            out.violation("c06bound:" + key, "more body evaluations (%d) than memoized rules x (input length + 1) on %r" % (sum(cnt.values()), c.inp),
+                          common.case_payload(c, st))
         # model's ghost log must say the same
         mcnt = collections.Counter()
         for e in (c.model.get("evals") or "").split(";"):
@@ -119,5 +126,9 @@ def check(out, ctx):
                            lambda c: "I:0" in c.impl.get("trace", ""),
                            {"memoized_body_evaluations_counted": total_evals, "failing_parses_with_cache_hit": failing_cached, "cases_with_single_probe_oracle": probed, "long_runs": long_runs, "long_run_evaluations_counted": long_evals,
                             "memo_grammars_that_are_instances_of_C06_at_most_once": sum(1 for g in st["grammars"] if g.meta["memo"] and not g.meta["leftrec"] and getattr(g, "wf", None) is True),
+                            "memo_grammars_that_are_instances_of_C06_at_most_once_lr": sum(1 for g in st["grammars"] if g.meta["memo"] and getattr(g, "wf_once", None) is True),
+                            "of_those_with_leftrec_rules": sum(1 for g in st["grammars"] if g.meta["memo"] and g.meta["leftrec"] and getattr(g, "wf_once", None) is True),
+                            "memo_grammars_with_leftrec_rules": sum(1 for g in st["grammars"] if g.meta["memo"] and g.meta["leftrec"]),
+                            "cases_of_certified_grammars": certified_cases,
                             "memo_grammars": sum(1 for g in st["grammars"] if g.meta["memo"]),
                             "model_vs_implementation_disagreements": bad})
